@@ -136,3 +136,9 @@ package client
 //@   ensures kept: closed0 == 0 && old(has(h.inFlight, sid)) && !isLastFrame(f) ==> has(h.inFlight, sid) && chancount(h.streamIds, sid) == old(chancount(h.streamIds, sid))
 //@   ensures others: forall id int16 :: closed0 == 0 && id != sid ==> has(h.inFlight, id) == old(has(h.inFlight, id)) && chancount(h.streamIds, id) == old(chancount(h.streamIds, id))
 //@   ensures unknownkeeps: closed0 == 0 && !old(has(h.inFlight, sid)) ==> chancount(h.streamIds, sid) == old(chancount(h.streamIds, sid)) && !has(h.inFlight, sid)
+
+// Reassembly of envelopes split over several segments: after a complete envelope the accumulator is empty again (the
+// first segment of the next envelope is recognised by targetLength == 0 and starts from no data).
+//@ func (*payloadAccumulator).reset
+//@   prop C15
+//@   ensures empty: a.targetLength == 0 && len(a.accumulatedData) == 0
